@@ -116,7 +116,11 @@ def gen_case(rng: random.Random, tier: str) -> dict:
         if rng.random() < 0.5:
             # one-shot signal: 'once' is emitted a single time; the waiter's data input (the loop state) keeps changing
             blk["nodes"].append({"kind": "fn", "name": "Lonce", "params": [], "outs": [], "emit": ["Lonce_sig"]})
-            blk["nodes"].append({"kind": "fn", "name": "Lw", "params": [{"name": blk["state"][0]}], "outs": ["Lwout"], "wait_for": ["Lonce_sig"]})
+            waits = ["Lonce_sig"]
+            if blk["signal"] and not blk.get("late") and rng.random() < 0.5:
+                waits.append("Ldone")  # two awaited names produced at different rates: BOTH must be fresh for a re-run
+                rng.shuffle(waits)
+            blk["nodes"].append({"kind": "fn", "name": "Lw", "params": [{"name": blk["state"][0]}], "outs": ["Lwout"], "wait_for": waits})
             blk["oneshot"] = True
         order = list(range(len(blk["nodes"])))
         rng.shuffle(order)
